@@ -142,82 +142,7 @@ def same_special(got, want, judge_sign, width32=False):
     return got == want
 
 
-def bucket(x):
-    """[2^k, 2^(k+1)) bucket label of a positive number"""
-    if x <= 0:
-        return "<=0"
-    k = math.floor(math.log2(x))
-    lo, hi = 2.0 ** k, 2.0 ** (k + 1)
-    f = lambda v: ("%g" % v)
-    return "[%s,%s)" % (f(lo), f(hi))
-
-
-def gammap_method(a, x):
-    """evaluation method special.gamma_incomplete_imp selects for the regularised P(a,x) (mirrors its decision tree: the region label)"""
-    is_int = is_half = False
-    if a < 30 and a <= x + 1.0 and x < 709.0:
-        fa = math.floor(a)
-        if fa == a:
-            is_int = True
-        elif abs(fa - a) == 0.5:
-            is_half = True
-    if is_int and x > 0.6:
-        return 0
-    if is_half and x > 0.2:
-        return 1
-    if x < 2.0 ** -52 and a > 1:
-        return 6
-    if x < 0.5:
-        return 2 if -0.4 / math.log(x) < a else 3
-    if x < 1.1:
-        return 2 if x * 0.75 < a else 3
-    if a > 20:
-        sigma = abs((x - a) / a)
-        if a > 200:
-            if 20 / a > sigma * sigma:
-                return 5
-        elif sigma < 0.4:
-            return 5
-    return 2 if x - 1.0 / (3.0 * x) < a else 4
-
-
-def label(op, x, par, k, ev):
-    """branch / region label of the operand tuple (part of the signature)"""
-    if op == "Log1pExp":
-        v = x[0]
-        return "(-inf,-37]" if v <= -37 else "(-37,18]" if v <= 18 else "(18,33.3]" if v <= 33.3 else "(33.3,inf)"
-    if op in ("Sigmoid", "Logistic"):
-        return "x>=0" if x[0] >= 0 else "x<0"
-    if op == "LogErfc":
-        v = x[0]
-        if v * v < 2.4607833005759251e-02:
-            return "|x|<0.157"
-        return "x>8" if v > 8 else "x in (0.157,8]" if v > 0 else "x<-0.157"
-    if op in ("Neg", "Abs"):
-        return "x>0" if x[0] > 0 else "x<0" if x[0] < 0 else "x=0"
-    if op == "Pow":
-        return "base>0" if x[0] > 0 else "base<0,integer exponent" if x[0] < 0 else "base=0"
-    if op in ("Gamma", "Lgamma"):
-        if x[0] > 0:
-            return "x>0"
-        return "x<0,Gamma>0" if T.gamma_sign(mpf(x[0])) > 0 else "x<0,Gamma<0"
-    if op in ("Min", "Max", "LogAdd"):
-        return "a=b" if x[0] == x[1] else "a<b" if x[0] < x[1] else "a>b"
-    if op == "LogSub":
-        return "a-b<log2" if x[0] - x[1] < LOG2 else "a-b>=log2"
-    if op == "Div":
-        return "zero-divisor" if x[1] == 0 else "domain"
-    if op == "GammaP":
-        return "boost-method=%d" % gammap_method(par, x[0])
-    if op in ("BesselI", "LogBesselI"):
-        if par == 0 or par == 1:
-            return "v=%g" % par
-        return "v>0,x/v<0.25" if x[0] / par < 0.25 else "v>0,x/v>=0.25"
-    if op == "Mlgamma":
-        return "k=%d" % k
-    if "vt" in ev:
-        return ev["vt"].split("/")[0]
-    return "domain"
+bucket, gammap_method, label = T.bucket, T.gammap_method, T.label
 
 
 class Ref:
